@@ -26,6 +26,18 @@ CLAIMED = {
   text="Decides for the 18 AppModule Begin/EndBlock methods and every module function reachable from them without crossing a recovering frame (defer-recover, whoops.Try): each method returns only the nil error (one exemption with a checked side obligation); every explicit panic, panicking SDK conversion or division (Int.Int64/Uint64, MustFloat64, Quo*/Mod by a possibly-zero divisor, Must*/whoops.Assert), single-result type assertion, integer division by a non-constant, parallel-slice index and decremented slice index is dominated by the matching guard, auto-accepted (codec round trip, constant arguments) or individually triaged with a reason; unknown sites fail; the skyway recover frames are installed first. NOT decided: nil dereferences, general index-out-of-range, panics inside SDK callees, states unreachable through transactions.",
   technique="call-graph reachability with recover-frame cut + may-panic site enumeration + dominator guard matching + frozen triage table",
   ref="C09"),
+ "C10": dict(
+  text="Decides: admission to a snapshot is dominated by IsBonded, !IsJailed and ValidatorSupportsAllChains (= no active chain missing); ShareCount is GetBondedTokens itself and TotalShares starts at zero and accumulates the same call in the same loop; the snapshot store is written only under a fresh id from the counter (Id set from it), by appending to Chains of a loaded snapshot, or by test support without production callers, never deleted; the current snapshot is read at the counter's last id; a validator is projected to a chain only under chain-type/reference-id match with a power produced by truncation (no rounding call) from its share; every UpdateValset sender (and the only constructor of that action) is dominated by the quorum gate of the very valset sent; the gate is a plain sum >= floor(2*2^32/3) and maxPower == 2^32 (constant evaluation). NOT decided: the float64 normalisation arithmetic (exact floor, sum <= 2^32) and staking-module timing of jail/unbond.",
+  technique="SSA dominator guards + store writer sets + constant evaluation + forbidden-call (rounding) slice check",
+  ref="C10"),
+ "C12": dict(
+  text="Decides: no Join/Split with a non-empty separator over raw address bytes in the validator-set module (one recorded known finding); the sweep jails only under !alive, !grace, !jailed with alive == height < alive-until, and control returns to the loop header after a Jail call (a failure cannot end the sweep); every success return of KeepValidatorAlive passes the store write, which is behind the version gate and sets alive-until = height + positive constant; the gate refuses semver.Compare(v, min) < 0; both writers of the minimum version refuse to lower it and nobody else writes it; EndBlock runs the grace update on every success path and the sweep under height % n == 0, n <= 10; the sentence table is strictly increasing and never reassigned; slashing.Jail is dominated by the last-validator and 25 % guards. NOT decided: bounded-time liveness over histories, sentence arithmetic, staking-module behaviour.",
+  technique="SSA dominator guards + must-pass-through + loop-structure checks + constant table evaluation + store writer sets",
+  ref="C12"),
+ "C13": dict(
+  text="Decides: every production function that writes a batch key (directly or through StoreBatch) archives GetCheckpoint of that batch on every success path, and the archive has no Delete; bad-signature punishment (Jail, Slash) is dominated by 'checkpoint not archived' for the same checkpoint value the signer is recovered from, and hits GetValidatorByEthAddress(EthAddressFromSignature(...)); prune-time jailing is dominated by the 10 % floor whose formula normalises exactly (truncating divisions rejected) to votes < total/10, by 'no evidence from this validator', and targets current-snapshot validators only; missing a relay jails nobody. NOT decided: signature-recovery cryptography, evidence histories.",
+  technique="store writer sets + must-pass-through + SSA dominator guards + symbolic threshold normal form with truncation tracking",
+  ref="C13"),
  "C01": dict(
   text="Decides over every skyway function that (transitively, VTA call graph) mutates pool / batch / id-counter / escrow state: a function that can fail after a mutation is an atomic wrapper (cache context committed only on success, every mutating callee on the cached context) or all caller chains propagate the error to a transaction boundary / atomic wrapper, never log-and-continue; every bank call moving the escrow has a registered shape with paired amounts (lock = amount + the recorded tax value; refund = stored amount + stored tax to the checked owner after removal; burn = batch sum, followed by batch deletion; mint = claim amount, only under the attestation handler whose only caller chain is processAttestation <- TryAttestation; governance one-off authority-guarded); pool/batch moves are exclusive and ordered; a failed local send of a minted deposit still reaches the community pool (path-sensitive over flag variables). NOT decided: the numeric identity escrow == sum(amount+tax) over arbitrary histories (follows informally from the pairing rules), id uniqueness arithmetic, atomicity inside the SDK bank keeper.",
   technique="store/bank writer sets + transitive mutator closure over VTA call graph + error-fate analysis + atomic-wrapper typestate + access-path amount pairing + path-sensitive must-pass-through",
@@ -34,6 +46,10 @@ CLAIMED = {
   text="Decides by access-path data-flow over the sibling pair keccak256 / VerifyAgainstTX of every action type: each message-relative path (action fields, fees and fee payer, message id, elected estimate, deadline, relayer) that influences the call data compared with the remote transaction also influences the Keccak256 input validators sign, plus the deployment id where the contract scheme has it; variable-length byte fields are not cut to a fixed width before signing; the batch checkpoint hash is influenced by token, receivers, amounts, nonce, timeout, relayer, gas estimate and turnstone id and every other batch field is classified; a new queued message's id comes only from IncrementNextID with one constant counter name (persisting last+1) and replacement requires the message to exist. NOT decided: injectivity of ABI packing and keccak (trusted), value-level equality of two encoders' arithmetic.",
   technique="interprocedural access-path influence (backward data-flow on SSA) + sibling cross-check + writer/guard checks",
   ref="C05"),
+ "C06": dict(
+  text="Decides: every production caller of AddSignData (and every direct SignData assignment) is dominated by VerifySignature==true over GetBytesToSign of the message just loaded, with the duplicate-key / duplicate-validator scan dominating the store; a batch confirmation is stored only after the external-signature check and GetBatchConfirm==nil, reader and writer on one key; the recorded public key is the GetSigningKey result of the acting validator; every production writer of Msg / GasEstimate of an existing queued message clears SignData on all paths or runs only after a checked SetElectedGasEstimate in the replacing caller; functions that rewrite a signed field without clearing are unreachable from runtime entry points; rewriting a stored batch deletes its confirmations on every success path and before the cache context is committed. NOT decided: cryptographic validity, key re-registration histories, that the signing bytes actually change.",
+  technique="who-may-call + SSA dominator guards + typestate (clear-on-change) over field writer sets + call-graph reachability",
+  ref="C06"),
  "C07": dict(
   text="Decides for all five VerifyAgainstTX implementations, attestTransactionIntegrity, the five attesters, routerAttester and attestMessageWrapper: success returns only under bytes.Equal(tx.Data(), X) with X influenced by the frozen per-action field set (action fields, id/estimate, deadline, fees, fee payer, relayer, valset, signature prefix); the transaction is handed on only if unprocessed and verified; every success effect is dominated by the integrity check with the action's own verifier; dispatch on a TxExecutedProof happens only past the receipt-status gate and the transaction is marked processed by a deferred call registered first; the processed set has one key derivation, an unconditional membership test and no deletions; every proof field production code reads is covered by the evidence hash; the cache is flushed only for nil / not-verified / failed. NOT decided: go-ethereum decoding, that every non-matching tx fails beyond the byte-equality gate.",
   technique="SSA dominator guards + access-path influence + must-pass-through + store writer sets + read-set vs hashed-set cross-check",
